@@ -62,6 +62,7 @@ from .registry import (
     SubcircuitDefinition,
     register_element,
 )
+from pyimpspec.exceptions import InfiniteImpedance
 from pyimpspec.typing import (
     ComplexImpedance,
     ComplexImpedances,
@@ -640,7 +641,9 @@ def _evaluate_subcircuit(
                 is_short=False,
             )
         else:
-            raise ValueError(f"Expected all impedances to be infinite instead of {Z=}")
+            raise InfiniteImpedance(
+                f"Expected all impedances to be infinite instead of {Z=}"
+            )
 
     return Subcircuit(
         impedances=Z,
